@@ -24,6 +24,10 @@ pub enum ReadEv {
 pub enum WriteEv {
     /// accept at most k bytes (k >= 1)
     Accept(usize),
+    /// accept all but j of the offered bytes (at least 1)
+    AcceptAllBut(usize),
+    /// accept half of the offered bytes, rounded up
+    AcceptHalf,
     Interrupted,
     WouldBlock,
     Err(i32),
@@ -132,7 +136,13 @@ impl Write for Script {
         st.write_calls += 1;
         let ev = st.writes.pop_front().unwrap_or(WriteEv::Accept(usize::MAX));
         let keep_log = st.write_log.len() < 100_000;
+        let ev = match ev {
+            WriteEv::AcceptAllBut(j) => WriteEv::Accept(buf.len().saturating_sub(j).max(1)),
+            WriteEv::AcceptHalf => WriteEv::Accept((buf.len() + 1) / 2),
+            other => other,
+        };
         match ev {
+            WriteEv::AcceptAllBut(_) | WriteEv::AcceptHalf => unreachable!(),
             WriteEv::Accept(k) => {
                 let n = k.max(1).min(buf.len());
                 st.written.extend_from_slice(&buf[..n]);
